@@ -8,6 +8,8 @@ import "sync/atomic"
 // hold a caller between two atomic instructions and let other callers run (schedule replay).
 //
 //	"do-put"      : Do, label queue:, before queue.PutOne
+//	"do-abort"    : Do, label abort:, after the select was left on ctx.Done() and before the goroutine that will
+//	                swallow the abandoned reply is started ("multi-abort": the same place in DoMulti)
 //	"do-bg-after" : Do, end of the synchronous path, after decrWaitsAndIncrRecvs returned left != 0 and before background()
 var VerifPipeGapFn atomic.Value // func(site string)
 
